@@ -13,13 +13,13 @@ export function refResolve(base, rel) {
     const b = base.split('/')
     b.pop()
     for (const s of b) {
-      if (s === '.' ) continue
+      if (s === '.' || s === '') continue // (an empty segment, as in `a//b`, names nothing)
       if (s === '..') { out.pop(); continue }
       out.push(s)
     }
   }
   for (const s of rel.replace(/^\//, '').split('/')) {
-    if (s === '.') continue
+    if (s === '.' || s === '') continue
     if (s === '..') { out.pop(); continue }
     out.push(s)
   }
